@@ -295,44 +295,88 @@ func c08R2(p *Prog, r *Report) {
 	} else {
 		r.OK("builder.(*Enum).Build/no skipped member", p.PosStr(loop.Pos()), "no continue/break in the member loop")
 	}
-	// the skip-comment only on the `duplicate value, same target` branch: it must be in the else of enumTargetMismatches
-	okSkip := false
-	ast.Inspect(loop.Body, func(n ast.Node) bool {
-		ifs, ok := n.(*ast.IfStmt)
-		if !ok {
-			return true
+	// duplicate values (SSA): every jen.Comment emitted in Enum.Build sits on the false edge of
+	// enumTargetMismatches(…), and on its true edge every path returns an error
+	okSkip, nComment := true, 0
+	isMismatch := func(c ssa.Value) bool {
+		call, ok := c.(*ssa.Call)
+		return ok && ssaCalleeObj(call) != nil && ssaCalleeObj(call).Name() == "enumTargetMismatches"
+	}
+	allInstrs(sf, false, func(in ssa.Instruction) {
+		c, ok := in.(*ssa.Call)
+		if !ok || ssaCalleeObj(c) == nil || objPkgPath(ssaCalleeObj(c)) != jenPath || ssaCalleeObj(c).Name() != "Comment" {
+			return
 		}
-		if c := callTo(info, ifs.Cond, modPath+"/builder", "", "enumTargetMismatches"); c != nil && ifs.Else != nil {
-			if blk, ok := ifs.Else.(*ast.BlockStmt); ok && len(blk.List) == 1 && appendsCase(blk.List[0], "Comment") && endsInExit(ifs.Body) {
-				okSkip = true
-			}
+		nComment++
+		if !dominatedByEdge(c.Block(), false, isMismatch) {
+			okSkip = false
 		}
-		return true
 	})
-	if okSkip {
+	allInstrs(sf, false, func(in ssa.Instruction) {
+		ifi, ok := in.(*ssa.If)
+		if !ok || !isMismatch(ifi.Cond) {
+			return
+		}
+		if g := existsPath(ifi.Block().Succs[0], 0, func(x ssa.Instruction) bool {
+			if ret, ok := x.(*ssa.Return); ok && isSuccessReturn(ret) {
+				return true
+			}
+			// leaving towards the next iteration also counts as `not an error`
+			return false
+		}, nil); g != nil {
+			okSkip = false
+		}
+	})
+	if okSkip && nComment >= 1 {
 		r.OK("builder.(*Enum).Build/duplicate values", p.PosStr(loop.Pos()), "a member is replaced by a comment only when an earlier member has the same value and enumTargetMismatches is false; a mismatch is an error")
 	} else {
 		r.Bad("builder.(*Enum).Build/duplicate values", p.PosStr(loop.Pos()), "the duplicate-value handling is not `mismatch → error, else skip-comment`")
 	}
-	// precedence of target name
+	// precedence of the target name (SSA, in Enum.Build or a helper of it): the transformer lookup is made only when
+	// enum:map has no entry, and the source name is used only when neither has one
 	okPrec := false
-	{
-		var order []string
-		for _, s := range loop.Body.List {
-			switch x := s.(type) {
-			case *ast.AssignStmt:
-				if len(x.Lhs) == 2 && exprString(x.Lhs[0]) == "targetName" {
-					order = append(order, exprString(x.Rhs[0]))
-				}
-			case *ast.IfStmt:
-				if exprString(x.Cond) == "!ok" && len(x.Body.List) == 1 {
-					if as, ok := x.Body.List[0].(*ast.AssignStmt); ok && exprString(as.Lhs[0]) == "targetName" {
-						order = append(order, exprString(as.Rhs[0]))
+	for _, f := range p.Region("builder.(*Enum).Build") {
+		fsf := p.SSAFunc(f)
+		var lkMap, lkTr *ssa.Lookup
+		allInstrs(fsf, false, func(in ssa.Instruction) {
+			lk, ok := in.(*ssa.Lookup)
+			if !ok || !lk.CommaOk {
+				return
+			}
+			if loadsFieldNamed(lk.X, "Map") {
+				lkMap = lk
+			} else if _, isMap := lk.X.Type().Underlying().(*types.Map); isMap && lkMap != nil && lkTr == nil {
+				lkTr = lk
+			}
+		})
+		if lkMap == nil || lkTr == nil {
+			continue
+		}
+		okOf := func(lk *ssa.Lookup) func(ssa.Value) bool {
+			return func(c ssa.Value) bool {
+				ex, ok := c.(*ssa.Extract)
+				return ok && ex.Index == 1 && ex.Tuple == ssa.Value(lk)
+			}
+		}
+		// the transformer lookup happens only on the !ok edge of the map lookup
+		trGuarded := dominatedByEdge(lkTr.Block(), false, okOf(lkMap))
+		// some φ merges [map value, transformer value, source name]; the source-name edge must come from !ok of the transformer lookup
+		fallbackGuarded := false
+		allInstrs(fsf, false, func(in ssa.Instruction) {
+			ph, ok := in.(*ssa.Phi)
+			if !ok || !types.Identical(ph.Type(), types.Typ[types.String]) {
+				return
+			}
+			for i, e := range ph.Edges {
+				if sameVar(e, lkMap.Index) {
+					pred := ph.Block().Preds[i]
+					if dominatedByEdge(pred, false, okOf(lkTr)) || edgeIsFalseOf(pred, ph.Block(), okOf(lkTr)) {
+						fallbackGuarded = true
 					}
 				}
 			}
-		}
-		if len(order) == 3 && strings.Contains(order[0], "EnumMapping.Map[sourceName]") && strings.HasPrefix(order[1], "transformerMapping[") && order[2] == "sourceName" {
+		})
+		if trGuarded && fallbackGuarded && sameVar(lkMap.Index, lkTr.Index) {
 			okPrec = true
 		}
 	}
@@ -529,7 +573,7 @@ func c08R3(p *Prog, r *Report) {
 					if !isVal(a) {
 						continue
 					}
-					// is the call result used as key / compared?
+					// is the call result used as key / compared (directly or through a local variable)?
 					parent := stack[len(stack)-1]
 					keyUse := false
 					switch pp := parent.(type) {
@@ -537,6 +581,23 @@ func c08R3(p *Prog, r *Report) {
 						keyUse = pp.Index == ast.Expr(x)
 					case *ast.BinaryExpr:
 						keyUse = pp.Op == token.EQL || pp.Op == token.NEQ
+					case *ast.AssignStmt:
+						// v := f(value); … m[v] …
+						for i, rh := range pp.Rhs {
+							if rh == ast.Expr(x) && i < len(pp.Lhs) {
+								if id, ok := ast.Unparen(pp.Lhs[i]).(*ast.Ident); ok {
+									obj := info.ObjectOf(id)
+									ast.Inspect(fi.Decl, func(q ast.Node) bool {
+										if ix, ok := q.(*ast.IndexExpr); ok {
+											if i2, ok := ast.Unparen(ix.Index).(*ast.Ident); ok && info.ObjectOf(i2) == obj {
+												keyUse = true
+											}
+										}
+										return true
+									})
+								}
+							}
+						}
 					}
 					if !keyUse {
 						continue
@@ -557,4 +618,27 @@ func c08R3(p *Prog, r *Report) {
 	if n == 0 {
 		r.Bad("builder/enum value uses", "", "no comparison or keying of enum member values found: duplicate values are not detected at all")
 	}
+}
+
+// isRangeElem: v is the element of a slice being ranged over (load of an IndexAddr) or a range Next extract.
+func isRangeElem(v ssa.Value) bool {
+	switch x := v.(type) {
+	case *ssa.UnOp:
+		_, ok := x.X.(*ssa.IndexAddr)
+		return ok && x.Op == token.MUL
+	case *ssa.Extract:
+		_, ok := x.Tuple.(*ssa.Next)
+		return ok
+	}
+	return false
+}
+
+// sameVar: identical SSA values, or two loads of the same variable cell.
+func sameVar(a, b ssa.Value) bool {
+	if a == b {
+		return true
+	}
+	ua, ok1 := a.(*ssa.UnOp)
+	ub, ok2 := b.(*ssa.UnOp)
+	return ok1 && ok2 && ua.Op == token.MUL && ub.Op == token.MUL && ua.X == ub.X
 }
